@@ -48,6 +48,19 @@ def strategy(tier):
     def _s(draw):
         fam = draw(st.sampled_from(["infeasible", "infeasible", "unbounded", "unbounded", "nlp", "qp"]))
         case = draw(SC.solve_case(families=(fam,), max_n=4, max_m=3, scalings=("none", "none", "custom", "gradjac"), iteration_limit=None))
+        if fam in ("nlp", "qp") and case["spec"]["m"] > 0 and draw(st.integers(0, 3)) == 0:
+            # poorly scaled rows (multiplied by 2^-k, exactly): the gradient of the violation measure, J'v, is small
+            # wherever the violation is small -- the two tolerances of the LocallyInfeasible test come close
+            sp_ = case["spec"]
+            k = draw(st.integers(7, 12))
+            f = 2.0 ** -k
+            sp_["A"] = (np.array(sp_["A"], dtype=float) * f).tolist()
+            for key in ("b", "cl", "cu", "u", "rshift"):
+                if sp_.get(key) is not None:
+                    sp_[key] = (np.array(sp_[key], dtype=float) * f).tolist()
+            if sp_.get("Hc") is not None:
+                sp_["Hc"] = (np.array(sp_["Hc"], dtype=float) * f).tolist()
+            sp_["family"] = sp_.get("family", fam) + "+smallrows"
         mode = draw(st.sampled_from(["natural", "natural", "iterlimit", "deadline", "realclock"]))
         case["mode"] = mode
         if mode == "realclock":
